@@ -54,9 +54,12 @@ def coefficient_maps(ctx):
                 return se
             if base is selfo and at == "_number_of_support_elements":
                 return NK
+            if base is selfo and at in ("number_of_shape_functions", "_number_of_shape_functions"):
+                return NS
             return None
 
-        it = Interp(m, fn, {"self": selfo, "nshape_fun": NS}, {"globals": {"_np": Opq("_np", "module")}, "attr": attr_h})
+        ns_locals = {s.targets[0].id: NS for s in fn.body if isinstance(s, ast.Assign) and isinstance(s.targets[0], ast.Name) and unparse(s.value).replace(" ", "") in ("self.number_of_shape_functions", "self._number_of_shape_functions")}
+        it = Interp(m, fn, {"self": selfo, **ns_locals}, {"globals": {"_np": Opq("_np", "module")}, "attr": attr_h})
         k, l = symex.fresh("k"), symex.fresh("l")
         symex.RANGES[k], symex.RANGES[l] = NK, NS
         slot = NS * V.atom(k) + V.atom(l)
